@@ -192,6 +192,28 @@ def fixed_regressions(with_assert=False):
     out.append(prog("R6_exception_value_from_union_selection", [stmt(pr({"e": "call", "fi": 2, "args": [lit(SI, 1)]})),
                                                                  stmt(pr({"e": "call", "fi": 2, "args": [lit(SI, 4)]}))],
                     funs=[thr, cat], uns=[[BI, SI]], exns=["ExP0"], exnp=[{"exn": "ExP0", "t": SI}]))
+    # G1 (specification witness): a collect form whose source is a generator advances the generator one step at a time,
+    # interleaved with the filter and the element expression -- the output order below is what AldorSem derives
+    S = lambda t_: {"e": "str", "s": t_}
+    gsrc = {"name": "gsrc", "oname": "gsrc", "ps": ["n"], "pts": [SI], "rt": ["gen", SI], "pure": False,
+            "body": {"e": "gen", "et": SI, "body": block(
+                pr(S("g-start")),
+                {"e": "for", "x": "i1", "lo": lit(SI, 1), "hi": var("n"), "body": block(pr(S("g"), var("i1")), {"e": "yield", "v": var("i1")})},
+                pr(S("g-end")))}}
+    keep = {"name": "keep", "oname": "keep", "ps": ["k"], "pts": [SI], "rt": BOOL, "pure": False,
+            "body": {"e": "seq", "t": BOOL, "es": [pr(S("c"), var("k")), prim("si.ne", var("k"), lit(SI, 2))]}}
+    note = {"name": "note", "oname": "note", "ps": ["m"], "pts": [SI], "rt": SI, "pure": False,
+            "body": {"e": "seq", "t": SI, "es": [pr(S("b"), var("m")), prim("si.mul", var("m"), lit(SI, 10))]}}
+    out.append(prog("G1_collect_over_generator_interleaves", [
+        gvar("gl", ["list", SI], {"e": "collect", "t": ["list", SI], "x": "c1", "srck": "gen",
+                                   "src": {"e": "call", "fi": 1, "args": [lit(SI, 3)]},
+                                   "cond": {"e": "call", "fi": 2, "args": [var("c1")]},
+                                   "body": {"e": "call", "fi": 3, "args": [var("c1")]}}),
+        stmt(pr({"e": "len", "l": var("gl")}, {"e": "first", "l": var("gl")})),
+        gvar("gm", ["list", SI], {"e": "collect", "t": ["list", SI], "x": "c2", "srck": "gen",
+                                   "src": {"e": "call", "fi": 1, "args": [lit(SI, 0)]}, "cond": {"e": "none"},
+                                   "body": prim("si.add", var("c2"), lit(SI, 1))}),
+        stmt(pr({"e": "len", "l": var("gm")}))], funs=[gsrc, keep, note]))
     f4 = {"name": "f4", "ps": ["p5", "p7"], "pts": [SI, SI], "rt": SI, "pure": True,
           "body": {"e": "let", "x": "v8", "t": SI, "v": var("p5"), "body": {"e": "seq", "t": SI, "es": [
               {"e": "asg", "x": "v8", "v": iff(var("g3"), lit(SI, 13), lit(SI, 12), SI)},
